@@ -1,11 +1,15 @@
 #!/bin/bash
-# usage: tools/seedrun.sh <dir with patch.diff> <PID> [tier]  -> applies the change to /repo, runs the check, reverts. prints CHECK_RC
+# usage: tools/seedrun.sh <dir with patch.diff> <PID> [tier]
+# Runs the check of <PID> against a scratch worktree of /repo with the seeded change applied (PYTHONPATH puts the
+# worktree before the editable install), with separate work/evidence/replay dirs, so it can run beside other work.
 D=$(cd "$1" && pwd); PID=$2; TIER=${3:-quick}
-cd /repo
-if ! git diff --quiet; then echo "repo dirty"; exit 9; fi
-git apply --whitespace=nowarn "$D/patch.diff" 2>/dev/null || git apply -3 --whitespace=nowarn "$D/patch.diff" || { echo "APPLY FAILED"; git checkout -- .; exit 8; }
+WT=$(mktemp -d /tmp/seedrun.XXXXXX); rmdir "$WT"
+git -C /repo worktree add -q --detach "$WT" HEAD || exit 9
+( cd "$WT" && { git apply --whitespace=nowarn "$D/patch.diff" 2>/dev/null || git apply -3 --whitespace=nowarn "$D/patch.diff"; } ) || { echo "APPLY FAILED $D"; git -C /repo worktree remove --force "$WT"; exit 8; }
+OUT=$WT.out; mkdir -p $OUT
 cd /verif
-./vcheck $PID --tier $TIER > /tmp/seedrun_$PID.log 2>&1; RC=$?
-cd /repo && git checkout -- . && git status --short | grep -v '^??' 
-echo "CHECK_RC=$RC $(grep -c '^VIOLATION' /tmp/seedrun_$PID.log) violations; $(tail -1 /tmp/seedrun_$PID.log | cut -c1-200)"
-grep '^VIOLATION' -A1 /tmp/seedrun_$PID.log | head -8
+LOG=/tmp/seedlog_${PID}_$(basename $D)_$$.log
+PYTHONPATH=$WT VERIF_REPO=$WT VERIF_WORK=$OUT/work VERIF_EVID=$OUT/evid VERIF_REPLAY=$OUT/replay ./vcheck $PID --tier $TIER > $LOG 2>&1; RC=$?
+git -C /repo worktree remove --force "$WT"; rm -rf $OUT
+echo "SEED $D PID=$PID CHECK_RC=$RC $(grep -c '^VIOLATION' $LOG) violations; $(grep '^\[' $LOG | tail -1 | cut -c1-160)"
+grep '^VIOLATION' -A1 $LOG | grep harness | head -4
